@@ -184,3 +184,42 @@ def status(o):
     if o.expect == 'unsat':
         return 'discharged' if o.verdict == 'unsat' else 'failed'
     return 'discharged' if o.verdict == 'sat' else 'failed'
+
+
+def _cvc5_one(job):
+    oid, smt2, timeout_s = job
+    with tempfile.NamedTemporaryFile('w', suffix='.smt2', delete=False, dir=os.environ.get('PYVC_TMP', None)) as f:
+        f.write('(set-logic ALL)\n' + smt2)
+        fn = f.name
+    try:
+        p = subprocess.run([CVC5, '--strings-exp', f'--tlimit={int(timeout_s * 1000)}', fn], capture_output=True, text=True, timeout=timeout_s + 5)
+        out = p.stdout.strip().splitlines()
+        return oid, (out[0] if out and out[0] in ('sat', 'unsat', 'unknown') else 'unknown')
+    except subprocess.TimeoutExpired:
+        return oid, 'unknown'
+    finally:
+        os.unlink(fn)
+
+
+def cross_check_cvc5(obligations, sample=400, timeout_s=20, seed=0, workers=None):
+    """Second opinion (thorough tier): a sample of the obligations z3 discharged as unsat is re-run with cvc5.
+    -> {'checked', 'agree', 'cvc5_unknown', 'disagree': [ids]}; a disagreement is a checker error."""
+    import random
+    if not os.path.exists(CVC5):
+        return {'checked': 0, 'note': 'cvc5 not available'}
+    cands = [o for o in obligations if o.expect == 'unsat' and o.verdict == 'unsat' and (o.backend or '').startswith('z3') and not o.quantified]
+    random.Random(seed).shuffle(cands)
+    cands = cands[:sample]
+    jobs = [(o.id, o.smt2(), timeout_s) for o in cands]
+    res = {'checked': len(jobs), 'agree': 0, 'cvc5_unknown': 0, 'disagree': []}
+    if not jobs:
+        return res
+    with ProcessPoolExecutor(max_workers=workers or min(16, os.cpu_count() or 4)) as ex:
+        for oid, v in ex.map(_cvc5_one, jobs, chunksize=4):
+            if v == 'unsat':
+                res['agree'] += 1
+            elif v == 'sat':
+                res['disagree'].append(oid)
+            else:
+                res['cvc5_unknown'] += 1
+    return res
